@@ -369,8 +369,22 @@ Proof.
 Qed.
 
 (* the separator ends where ":.." begins *)
+(* ".." is matched by rule range_part, whichever of ".." and "..=" the grammar lists first *)
+Lemma range_part_dots a t : exists x, run r_range_part a (46 :: 46 :: t) = Some x.
+Proof.
+  unfold r_range_part. cbn [run strip_prefix N.eqb Pos.eqb].
+  destruct t as [|c t]; [eexists; reflexivity|].
+  destruct c as [|q]; [eexists; reflexivity|]. destruct (Pos.eqb 61 q); eexists; reflexivity.
+Qed.
+
 Lemma split_stop_at_range t : run split_alt true (58 :: 46 :: 46 :: t) = None.
-Proof. reflexivity. Qed.
+Proof.
+  destruct (range_part_dots true t) as (x & Hx).
+  unfold split_alt, r_split_escaped_char, r_split_content.
+  cbn [run seq_res strip_prefix N.eqb Pos.eqb].
+  assert (Hn : run r_number true (46 :: 46 :: t) = None) by reflexivity.
+  rewrite Hn, Hx. destruct x as [[? ?] ?]. reflexivity.
+Qed.
 
 Lemma esc_cp_cases c : (exists y, esc_cp c = [92; y]) \/ (esc_cp c = [c] /\ is_special c = false).
 Proof.
